@@ -6,8 +6,11 @@
 package httproto
 
 // C15: decoding never writes into a shared status
+// (C06 is claimed with message printing off: the debug copy of a printed message
+// accumulates every header line and is deliberately outside the limit)
 //@ func (*httproto).Unpack
-//@   property C15
+//@   property C15 C06
+//@   requires[not-debug-printing] @C06 !h.printMessage
 //@   requires msgOwnStatus(as(m, type(*socket.message)))
 
 // ---- C06: nothing is buffered beyond the per-message read limit ----------------
